@@ -213,6 +213,7 @@ def py_vars(p, acc=None):
 class Walker:
     def __init__(self):
         self.sites = []        # (file, kind, text, pred)
+        self.guards = {}       # coq text of every distinct guard conjunction met -> pred (for BUILD's cfg coverage)
         self.facts = {}        # 'no_std' -> pred, 'extern_alloc' -> pred
         self.files = []
 
@@ -303,7 +304,9 @@ class Walker:
                 if p is None or toks[k] != ("p", "{"):
                     raise AllocTranslateError("cfg_if!: malformed branch in %s" % rel)
                 e = match_close(toks, k)
-                self.walk(toks, k + 1, e, p_and(pred, *neg, p), rel)
+                pb = p_and(pred, *neg, p)
+                self.guards.setdefault(coq_form(pb), pb)
+                self.walk(toks, k + 1, e, pb, rel)
                 neg.append(("not", p))
                 j = e + 1
             elif toks[j] == ("id", "else"):
@@ -313,7 +316,9 @@ class Walker:
                 if toks[j + 1] != ("p", "{"):
                     raise AllocTranslateError("cfg_if!: malformed else in %s" % rel)
                 e = match_close(toks, j + 1)
-                self.walk(toks, j + 2, e, p_and(pred, *neg), rel)
+                pb = p_and(pred, *neg)
+                self.guards.setdefault(coq_form(pb), pb)
+                self.walk(toks, j + 2, e, pb, rel)
                 j = e + 1
             else:
                 raise AllocTranslateError("cfg_if!: unexpected token %r in %s" % (toks[j][1], rel))
@@ -338,6 +343,7 @@ class Walker:
                         inner_seen = True
                         if p is not None:
                             pred = p_and(pred, p)       # the rest of this scope
+                            self.guards.setdefault(coq_form(pred), pred)
                     elif p is not None:
                         preds.append(p)
                     j = j2
@@ -351,6 +357,7 @@ class Walker:
                 if e <= j:
                     e = j + 1
                 p2 = p_and(pred, *preds)
+                self.guards.setdefault(coq_form(p2), p2)
                 # `extern crate alloc;`
                 if [x[1] for x in toks[j:j + 3]] == ["extern", "crate", "alloc"]:
                     self.facts["extern_alloc"] = p2
